@@ -7,7 +7,7 @@ from checks import c08
 IMPORTS = ["lib.Bytes", "lib.Sha256", "model.SigV4Core", "model.Chunked", "model.Multipart"]
 
 
-def form_body(rng, boundary):
+def form_body(rng, boundary, lead=None):
     """a multipart/form-data body in the grammar the model covers; returns (bytes, marks)"""
     parts = []
     nf = rng.range(0, 4)
@@ -23,7 +23,8 @@ def form_body(rng, boundary):
         hdrs.reverse()
     filepart = b"--" + boundary + b"\r\n" + b"\r\n".join(hdrs) + b"\r\n\r\n" + content + b"\r\n--" + boundary
     tail = rng.choice([b"--\r\n", b"--", b"\r\nContent-Disposition: form-data; name=\"after\"\r\n\r\nz\r\n--" + boundary + b"--\r\n", b""])
-    lead = rng.choice([b"", b"", b"\r\n"])
+    lead_drawn = rng.choice([b"", b"", b"\r\n"])
+    lead = lead_drawn if lead is None else lead
     body = lead + b"".join(parts) + filepart + tail
     return body
 
@@ -36,7 +37,7 @@ def run(ctx):
     rng = ctx.rng
     ctx.cov["rule"] = ("chunk-signed bodies (valid and faulty, from the C08 generator) and multipart/form-data bodies (0..4 fields, "
                        "file contents with CR/LF runs and boundary look-alikes), each run under the single-frame framing and under "
-                       "many others: every 2-partition for bodies <= 400 bytes, 1-byte frames, random cuts, empty frames, cuts at "
+                       "many others: every 2-partition for bodies <= 160 (quick) / 300 (thorough) bytes, 1-byte frames, random cuts, empty frames, cuts at "
                        "CR/LF/;/= tokens, each with 0..2 Pending returns before every frame. A framing whose outcome differs from "
                        "the single-frame outcome is a violation; every outcome is also compared with the model. Non-trivial: "
                        "distinct (body, outcome); plain and buffered bodies are covered by the theorems only (concatenation).")
@@ -45,15 +46,19 @@ def run(ctx):
         ctx.violation(dict(stage="coq", kind="proof obligation or audit failed", issues=r["issues"]), has_input=False)
 
     # ---- multipart
-    nb = 6 if ctx.quick else 40
+    nb = 6 if ctx.quick else 24
     cases, meta = [], []
     for bi in range(nb):
         boundary = rng.choice([b"BOUND", b"----WebKitFormBoundary7MA4YWxk", b"b", b"-b-"])
-        body = form_body(rng, boundary)
-        if rng.chance(1, 6):
+        # the second body of every run starts with the optional CRLF before the first boundary line and is short enough for every 2-partition
+        body = form_body(rng, boundary, lead=(b"\r\n" if bi == 1 else None))
+        if bi == 1:
+            while len(body) > 150:
+                body = form_body(rng, b"b", lead=b"\r\n"); boundary = b"b"
+        elif rng.chance(1, 6):
             body = body[:rng.below(len(body))]          # truncated form
         parts = [[body]]
-        if len(body) <= (160 if ctx.quick else 400):
+        if len(body) <= (160 if ctx.quick else 300):
             parts += all_two_partitions(body)
         parts += [G.partition(rng, body, style=s) for s in (1, 2, 3, 5, 6, 7)]
         for k, fr in enumerate(parts):
@@ -122,8 +127,37 @@ def run(ctx):
         else:
             ctx.cov["traces_validated_against_impl"] += 1
 
+    # ---- chunk-signed uploads end to end: one signed PutObject through S3Service::call to a backend that drains the body, under framings
+    # that put a border exactly after every chunk header line, empty frames inside header lines and data, 1-byte frames, ...
+    rq, chunks = c08.e2e_upload(rng, size=1100, chunk=512)
+    wb = G.flat(chunks)
+    hdr_ends, pos = [], 0
+    for h_, d_, t_ in chunks:
+        hdr_ends.append(pos + len(h_)); pos += len(h_) + len(d_) + len(t_)
+    def cut_at(points):
+        pts = sorted(set(p_ for p_ in points if 0 < p_ < len(wb)))
+        return [wb[a:c] for a, c in zip([0] + pts, pts + [len(wb)])]
+    framings = {"whole": [wb], "per-chunk": [h_ + d_ + t_ for h_, d_, t_ in chunks], "after-every-header-line": cut_at(hdr_ends),
+                "header-line-and-data-apart": [x for h_, d_, t_ in chunks for x in (h_, d_ + t_)],
+                "empty-frames-everywhere": [x for f in cut_at(hdr_ends + [e + 7 for e in hdr_ends]) for x in (f, b"")],
+                "empty-frame-first": [b""] + cut_at([len(wb) // 2]), "one-byte": [wb[i:i + 1] for i in range(len(wb))],
+                "inside-crlf": cut_at([e - 1 for e in hdr_ends]), "inside-signature": cut_at([e - 20 for e in hdr_ends]),
+                "random": G.partition(rng, wb, style=3)}
+    e2e = vlib.run_impl("svc", [c08.e2e_case(rq, fr) for fr in framings.values()])
+    for (nme, fr), r_ in zip(framings.items(), e2e):
+        ctx.cov["evaluations"] += 1
+        kind, a, err = c08.e2e_observe(r_)
+        ctx.count("e2e.chunked." + (kind if kind != "backend" else ("delivered" if err is None and a == rq["body"] else "differs")))
+        ctx.nontrivial(("e2e-chunked", nme, kind, len(a) if isinstance(a, bytes) else a))
+        if kind != "backend" or err is not None or a != rq["body"]:
+            ctx.violation(dict(stage="chunked-e2e", kind="the outcome depends on the framing of the body: the same chunk-signed upload is not delivered "
+                               "completely to the backend under this framing", framing=nme, frame_lengths=[len(f) for f in fr][:60], outcome=kind,
+                               error=err, delivered=len(a) if isinstance(a, bytes) else a, expected=len(rq["body"])))
+        else:
+            ctx.cov["traces_validated_against_impl"] += 1
+
     # ---- chunk-signed bodies
-    gen = c08.gen_cases(ctx)[: (25 if ctx.quick else 200)]
+    gen = c08.gen_cases(ctx)[: (25 if ctx.quick else 120)]
     cases, meta = [], []
     for bi, (kind, fr0, dec, seed, terr, _) in enumerate(gen):
         body = b"".join(fr0)
